@@ -10,7 +10,18 @@ package h2relay
 //	settings e id=val,...            settingsack e    ping e ack x<8 bytes>    goaway e last code debug
 //	wu e sid inc
 //	raw e type flags sid payload     malformed stream (oracle-only: no panic, no hang)
-//	mode real                        the case uses a real hpack.Encoder at the endpoints (oracle-only)
+//	mode real                        the case uses a real hpack.Encoder at the endpoints (oracle-only):
+//	  enclimit e v                     table size endpoint e's encoder is willing to use (SetMaxDynamicTableSizeLimit)
+//	  rhdr e sid es prio cuts fields   header block encoded by endpoint e's encoder WHEN THE OP RUNS, cut at the given
+//	                                   per-mille positions; fields = hexname:valuetok,...
+//	  rpp e sid promised fields        rcont e  (next CONTINUATION of e's block)
+//	hb e sid es prio instrs          one HEADERS frame whose block is given as HPACK representations (hpackinstr.go),
+//	                                 emitted by a hand-driven encoder with its own dynamic table (model-compared)
+//	hp.*                             x/net hpack.Decoder / Encoder alone against the Lean table model (hp.go)
+//
+// SETTINGS are lists: an identifier may occur several times (the last value counts, RFC 7540 6.5.3), unknown
+// identifiers are allowed. An endpoint applies the SETTINGS it received (its encoder's table size) when it sends
+// `settingsack`; until then it keeps encoding under the limits it knew.
 //	e2e-preface n1,n2,...            oracle-only (C08): preface dribbled through Config.Proxy in pieces
 //	drained                          oracle-only: every window is open, everything must have arrived
 //
@@ -53,6 +64,14 @@ type caseGen struct {
 	maxF    [2]int                    // MAX_FRAME_SIZE endpoint e advertised (kept non-decreasing)
 	sids    map[uint32]bool
 	exhaust []int // forced cut positions for the next header block (exhaustive tier)
+
+	initW    [2]int      // INITIAL_WINDOW_SIZE endpoint e advertised last
+	tabSince [2][]uint32 // HEADER_TABLE_SIZE values e advertised since the last block relayed towards it
+	ackDue   [2][][]uint32
+	instr    bool          // header blocks of this case are (mostly) sent as `hb` representations
+	stab     [2]*ShadowTab // dynamic table of endpoint e's hand-driven encoder
+	limit    [2]uint32     // HEADER_TABLE_SIZE of the peer that endpoint e has acknowledged
+	pregrant map[uint32]bool // streams whose receiver (the client) grants window before the first frame towards it
 }
 
 var names = []string{":method", ":path", ":scheme", ":authority", ":status", "content-type", "x-trailer-one", "x-a", "grpc-status", "te"}
@@ -64,6 +83,11 @@ func (g *caseGen) fields(n int, big bool) []Field {
 		f := Field{names[g.r.Intn(len(names))], values[g.r.Intn(len(values))]}
 		if g.r.Chance(1, 12) {
 			f.Value = fmt.Sprintf("v%d", g.r.Intn(1000))
+		}
+		if (g.real || g.instr) && g.r.Chance(1, 3) {
+			// entries that fill a dynamic table beyond 4096 octets and are referenced again later
+			j := g.r.Intn(40)
+			f = Field{fmt.Sprintf("x-k%d", j%8), poolValue(j)}
 		}
 		fs = append(fs, f)
 	}
@@ -82,6 +106,29 @@ func (g *caseGen) fields(n int, big bool) []Field {
 		core.Count("gen:big-header-block")
 	}
 	return fs
+}
+
+// poolValue: printable, 40..430 octets, distinct per j.
+func poolValue(j int) string {
+	n := 40 + (j*37)%391
+	b := make([]byte, n)
+	for i := range b {
+		b[i] = byte('a' + (j*7+i*3+i/26)%26)
+	}
+	return fmt.Sprintf("%02d-", j) + string(b)
+}
+
+func valTok(v string) string {
+	if len(v) > 600 { // a GenBytes pattern? then g<seed>.<n>
+		for seed := 0; seed < 256; seed++ {
+			if byte(seed*31) == v[0] {
+				if string(GenBytes(seed, len(v))) == v {
+					return fmt.Sprintf("g%d.%d", seed, len(v))
+				}
+			}
+		}
+	}
+	return BytesTok([]byte(v))
 }
 
 func isBig(fs []Field) bool {
@@ -265,6 +312,46 @@ func (g *caseGen) send(e int, sid uint32) {
 	case "prio":
 		g.emit("prio %s %d %s", en, sid, f.prio)
 	case "hdr", "push":
+		if g.real {
+			// encoded by endpoint e's encoder when the op executes
+			if f.kind == "push" {
+				g.emit("rpp %s %d %d %s", en, sid, f.promised, FieldsTok(f.fields, valTok))
+				g.blockDone(e)
+				return
+			}
+			k := []int{0, 0, 0, 1, 1, 2, 3}[g.r.Intn(7)]
+			var pm []int
+			for i := 0; i < k; i++ {
+				pm = append(pm, g.r.Intn(1001))
+			}
+			sort.Ints(pm)
+			cuts := "-"
+			if k > 0 {
+				var p []string
+				for _, x := range pm {
+					p = append(p, fmt.Sprint(x))
+				}
+				cuts = strings.Join(p, ",")
+				core.Count("gen:blocks-cut")
+			}
+			prio := f.prio
+			if prio == "0/0/0" {
+				prio = "-"
+			}
+			g.emit("rhdr %s %d %s %s %s %s", en, sid, b01(f.es), prio, cuts, FieldsTok(f.fields, valTok))
+			for i := 0; i < k; i++ {
+				g.pend[e] = append(g.pend[e], "rcont "+en)
+			}
+			if k == 0 {
+				g.blockDone(e)
+			}
+			return
+		}
+		if g.instr && f.kind == "hdr" && !isBig(f.fields) && f.prio != "0/0/0" && g.exhaust == nil && g.r.Chance(4, 5) {
+			g.emit("hb %s %d %s %s %s", en, sid, b01(f.es), f.prio, InstrsTok(g.represent(e, f.fields)))
+			g.blockDone(e)
+			return
+		}
 		fr := [][]byte{g.encode(e, f.fields)}
 		if f.kind == "hdr" || g.exhaust != nil {
 			// this x/net Framer cannot read a PUSH_PROMISE continued by CONTINUATION frames
@@ -280,37 +367,192 @@ func (g *caseGen) send(e int, sid uint32) {
 		for i := 1; i < len(fr); i++ {
 			g.pend[e] = append(g.pend[e], fmt.Sprintf("cont %s %d %s %s", en, sid, b01(i == len(fr)-1), BytesTok(fr[i])))
 		}
+		if len(fr) == 1 {
+			g.blockDone(e)
+		}
 	}
+}
+
+// blockDone: endpoint e completed a header block; the relay encodes its copy for endpoint 1-e now,
+// and with it announces the table size changes 1-e advertised since the previous block.
+func (g *caseGen) blockDone(e int) { g.tabSince[1-e] = nil }
+
+// represent chooses HPACK representations for a field list against endpoint e's own dynamic
+// table, under the HEADER_TABLE_SIZE of the peer that e has acknowledged so far.
+func (g *caseGen) represent(e int, fs []Field) []Instr {
+	t, lim := g.stab[e], uint64(g.limit[e])
+	var is []Instr
+	upd := func(v uint64) {
+		is = append(is, Instr{Op: 'u', N: v})
+		t.SetMax(v)
+	}
+	pick := func() uint64 { // a size not above the limit
+		c := []uint64{0, 31, 64, 100, 1000, 4096, lim}
+		for {
+			if v := c[g.r.Intn(len(c))]; v <= lim {
+				return v
+			}
+		}
+	}
+	switch {
+	case t.Max > lim: // the peer lowered the limit: the change must be signalled first
+		if g.r.Chance(1, 4) {
+			upd(0) // (the smallest size in between, then the final one: only with an empty table, see exec)
+			upd(pick())
+		} else {
+			upd(pick())
+		}
+		core.Count("gen:hb-required-size-update")
+	case g.r.Chance(1, 6):
+		if g.r.Chance(1, 4) {
+			upd(0)
+		}
+		upd(pick())
+		core.Count("gen:hb-voluntary-size-update")
+	}
+	for _, f := range fs {
+		exact, name := -1, -1
+		for k, en := range t.Ents {
+			if en.Name == f.Name {
+				if name < 0 {
+					name = k
+				}
+				if en.Value == f.Value && exact < 0 {
+					exact = k
+				}
+			}
+		}
+		switch {
+		case exact >= 0 && g.r.Chance(4, 5):
+			is = append(is, Instr{Op: 'i', N: uint64(exact)})
+			core.Count("gen:hb-indexed")
+		case name >= 0 && g.r.Chance(1, 2):
+			is = append(is, Instr{Op: 'r', N: uint64(name), Value: f.Value})
+			t.Add(Field{f.Name, f.Value})
+		case g.r.Chance(3, 4):
+			is = append(is, Instr{Op: 'a', Name: f.Name, Value: f.Value})
+			t.Add(f)
+		default:
+			is = append(is, Instr{Op: 'l', Name: f.Name, Value: f.Value})
+		}
+	}
+	return is
 }
 
 var initWins = []int{0, 1, 10, 65535, 1<<31 - 1}
 var incs = []int{1, 2, 9, 10, 100, 16384, 65535, 70000, 1 << 20, 1<<31 - 1}
 
+var tabSizes = []uint32{0, 1, 31, 100, 1000, 4096, 4097, 8192, 65536, 1 << 20}
+
+// settings emits one SETTINGS frame of endpoint e: a LIST of (identifier, value) pairs in which an
+// identifier may occur more than once (the values are processed in order, so the last one is what e
+// applies - RFC 7540 6.5.3), with unknown identifiers in between, in any order.
 func (g *caseGen) settings(e int, tight bool) {
-	var kv []string
-	if g.r.Chance(3, 4) {
-		w := initWins[g.r.Intn(len(initWins))]
-		if tight {
-			w = initWins[g.r.Intn(3)]
+	var groups [][]string // per identifier, in the order the values must keep
+	dup := func() int {   // how many values for one identifier
+		switch g.r.Intn(12) {
+		case 0, 1, 2:
+			return 2
+		case 3:
+			return 3
 		}
-		kv = append(kv, fmt.Sprintf("4=%d", w))
+		return 1
+	}
+	if g.r.Chance(3, 4) {
+		// INITIAL_WINDOW_SIZE: several values in one frame - only the last ever comes into force
+		var grp []string
+		cur := g.initW[e]
+		for i, n := 0, dup(); i < n; i++ {
+			w := initWins[g.r.Intn(len(initWins))]
+			if tight {
+				w = initWins[g.r.Intn(3)]
+			}
+			if g.r.Chance(1, 6) {
+				w = []int{2, 9, 1000, 16384, 65536, 100000}[g.r.Intn(6)]
+			}
+			grp = append(grp, fmt.Sprintf("4=%d", w))
+			cur = w
+		}
+		g.initW[e] = cur
+		groups = append(groups, grp)
 	}
 	if g.r.Chance(1, 3) {
-		m := []int{16384, 16385, 20000, 65536, 1<<24 - 1}[g.r.Intn(5)]
+		// MAX_FRAME_SIZE: the value in force stays non-decreasing per endpoint; earlier values of the
+		// same frame may be anything legal
+		ms := []int{16384, 16385, 20000, 65536, 1<<24 - 1}
+		m := ms[g.r.Intn(5)]
 		if m >= g.maxF[e] {
+			var grp []string
+			for i, n := 1, dup(); i < n; i++ {
+				grp = append(grp, fmt.Sprintf("5=%d", ms[g.r.Intn(5)]))
+			}
 			g.maxF[e] = m
-			kv = append(kv, fmt.Sprintf("5=%d", m))
+			groups = append(groups, append(grp, fmt.Sprintf("5=%d", m)))
 		}
 	}
-	if g.r.Chance(1, 6) {
-		kv = append(kv, fmt.Sprintf("%d=%d", []int{2, 3, 6, 99}[g.r.Intn(4)], g.r.Intn(1000)))
+	if g.r.Chance(1, 5) || ((g.real || g.instr) && g.r.Chance(1, 2)) {
+		// HEADER_TABLE_SIZE. In model-compared cases the relay's encoder must not have to announce
+		// "smallest size, then final size" with a table that is not empty in between (x/net decoder
+		// limit, see exec.recvBlock): a value is only added when it is the smallest since the last
+		// block relayed towards e, or when something below 32 (= empty table) came in between.
+		var grp []string
+		for i, n := 0, dup(); i < n; i++ {
+			v := tabSizes[g.r.Intn(len(tabSizes))]
+			min := v
+			for _, p := range g.tabSince[e] {
+				if p < min {
+					min = p
+				}
+			}
+			if !g.real && v != min && min >= 32 {
+				continue
+			}
+			g.tabSince[e] = append(g.tabSince[e], v)
+			grp = append(grp, fmt.Sprintf("1=%d", v))
+		}
+		if len(grp) > 0 {
+			groups = append(groups, grp)
+		}
 	}
-	g.r2shuffle(kv)
+	if g.r.Chance(1, 5) {
+		var grp []string
+		for i, n := 0, dup(); i < n; i++ {
+			grp = append(grp, fmt.Sprintf("%d=%d", []int{2, 3, 6, 8, 99, 65535}[g.r.Intn(6)], g.r.Intn(1000)))
+		}
+		groups = append(groups, grp)
+	}
+	// random merge of the groups (order between identifiers is free, within one it is kept)
+	var kv []string
+	var tab []uint32
+	for len(groups) > 0 {
+		i := g.r.Intn(len(groups))
+		kv = append(kv, groups[i][0])
+		if strings.HasPrefix(groups[i][0], "1=") {
+			var v uint32
+			fmt.Sscanf(groups[i][0], "1=%d", &v)
+			tab = append(tab, v)
+		}
+		if groups[i] = groups[i][1:]; len(groups[i]) == 0 {
+			groups = append(groups[:i], groups[i+1:]...)
+		}
+	}
+	g.ackDue[1-e] = append(g.ackDue[1-e], tab)
 	s := "-"
 	if len(kv) > 0 {
 		s = strings.Join(kv, ",")
 	}
 	g.emit("settings %s %s", epName(e), s)
+}
+
+// ack: endpoint e acknowledges (and applies) the oldest SETTINGS frame it received.
+func (g *caseGen) ack(e int) {
+	if len(g.ackDue[e]) > 0 {
+		for _, v := range g.ackDue[e][0] {
+			g.limit[e] = v
+		}
+		g.ackDue[e] = g.ackDue[e][1:]
+	}
+	g.emit("settingsack %s", epName(e))
 }
 
 func (g *caseGen) r2shuffle(a []string) {
@@ -329,17 +571,52 @@ func (g *caseGen) anySid() uint32 {
 	return uint32(l[g.r.Intn(len(l))])
 }
 
-// randomCase builds one interleaved two-way session.
-func randomCase(r *core.Rand, profile string, real bool) []string {
-	g := &caseGen{r: r, profile: profile, real: real, sids: map[uint32]bool{}}
+func newCaseGen(r *core.Rand, profile string, real bool) *caseGen {
+	g := &caseGen{r: r, profile: profile, real: real, sids: map[uint32]bool{}, pregrant: map[uint32]bool{}}
 	for e := 0; e < 2; e++ {
 		g.encBuf[e] = &bytes.Buffer{}
 		g.enc[e] = hpack.NewEncoder(g.encBuf[e])
 		g.scripts[e] = map[uint32][]frameSpec{}
 		g.maxF[e] = 16384
+		g.initW[e] = 65535
+		g.stab[e] = NewShadowTab(4096)
+		g.limit[e] = 4096
 	}
+	return g
+}
+
+// bulk turns a message into one whose DATA exceeds the initial stream window (65535), trailers behind.
+func (g *caseGen) bulk(m []frameSpec) []frameSpec {
+	out := []frameSpec{m[0]}
+	out[0].es = false
+	total := 0
+	for total <= 65535+g.r.Intn(40000) {
+		n := []int{16384, 20000, 32768, 65535, 65536, 70000}[g.r.Intn(6)]
+		out = append(out, frameSpec{kind: "data", payload: fmt.Sprintf("g%d.%d", g.r.Intn(250), n), pad: "-"})
+		total += n
+	}
+	if g.r.Chance(2, 3) {
+		out = append(out, frameSpec{kind: "hdr", fields: []Field{{"grpc-status", "0"}}, es: true, prio: "-"})
+	} else {
+		out[len(out)-1].es = true
+	}
+	return out
+}
+
+// randomCase builds one interleaved two-way session.
+func randomCase(r *core.Rand, profile string, real bool) []string {
+	g := newCaseGen(r, profile, real)
+	g.instr = !real && r.Chance(1, 3)
 	if real {
 		g.emit("mode real")
+		for e := 0; e < 2; e++ {
+			if r.Chance(2, 3) { // an endpoint whose encoder follows the peer's table size beyond 4096
+				g.emit("enclimit %s %d", epName(e), []int{8192, 65536, 1 << 20}[r.Intn(3)])
+			}
+		}
+	}
+	if g.instr {
+		core.Count("gen:instr-cases")
 	}
 	n := 1 + r.Intn(6)
 	core.Count(fmt.Sprintf("gen:streams=%d", n))
@@ -366,6 +643,30 @@ func randomCase(r *core.Rand, profile string, real bool) []string {
 			core.Count("gen:push-promise")
 		}
 	}
+	// Window granted before the first frame travels towards the grantor on that stream (a client that
+	// enlarges its receive window right after its request HEADERS, as curl / nghttp2 do), then a body
+	// larger than the initial window, and no further stream-level grant.
+	pre := r.Chance(1, 6)
+	if profile == "C09" {
+		pre = r.Chance(1, 4)
+	}
+	if pre {
+		var l []int
+		for s := range g.scripts[1] {
+			if s%2 == 1 {
+				l = append(l, int(s))
+			}
+		}
+		sort.Ints(l)
+		if len(l) > 0 {
+			sid := uint32(l[r.Intn(len(l))])
+			if q := g.scripts[1][sid]; q[0].kind == "hdr" {
+				g.scripts[1][sid] = g.bulk(q)
+				g.pregrant[sid] = true
+				core.Count("gen:pregrant-bulk-streams")
+			}
+		}
+	}
 	tight := [2]bool{r.Chance(1, 2), r.Chance(1, 2)} // endpoint e grants small windows
 	if profile == "C09" {
 		tight = [2]bool{r.Chance(3, 4), r.Chance(3, 4)}
@@ -386,7 +687,9 @@ func randomCase(r *core.Rand, profile string, real bool) []string {
 				e = 1 - e // ...but the other endpoint is free
 			} else {
 				g.ops = append(g.ops, g.pend[e][0])
-				g.pend[e] = g.pend[e][1:]
+				if g.pend[e] = g.pend[e][1:]; len(g.pend[e]) == 0 {
+					g.blockDone(e)
+				}
 				continue
 			}
 		}
@@ -398,10 +701,26 @@ func randomCase(r *core.Rand, profile string, real bool) []string {
 		case k < 11 && len(g.scripts[e]) > 0:
 			var l []int
 			for s := range g.scripts[e] {
+				if e == 1 && g.pregrant[s] {
+					continue // the response waits for the request (and the client's early grant)
+				}
 				l = append(l, int(s))
 			}
+			if len(l) == 0 {
+				continue
+			}
 			sort.Ints(l)
-			g.send(e, uint32(l[r.Intn(len(l))]))
+			sid := uint32(l[r.Intn(len(l))])
+			first := len(g.ops)
+			g.send(e, sid)
+			if e == 0 && g.pregrant[sid] && len(g.pend[0]) == 0 && strings.Contains(g.ops[first], " "+fmt.Sprint(sid)+" ") {
+				// the client's first complete frame on the stream is out: it grants the response its window
+				delete(g.pregrant, sid)
+				g.emit("wu c %d %d", sid, []int{1 << 20, 1 << 24, 1<<30 - 1}[r.Intn(3)])
+				g.emit("wu c 0 %d", []int{1 << 20, 1 << 24, 1<<30 - 1}[r.Intn(3)])
+			}
+		case k < 15 && len(g.ackDue[e]) > 0 && r.Chance(1, 3):
+			g.ack(e)
 		case k < 15:
 			inc := incs[r.Intn(len(incs))]
 			if tight[e] && r.Chance(2, 3) {
@@ -417,7 +736,7 @@ func randomCase(r *core.Rand, profile string, real bool) []string {
 		case k == 16:
 			g.emit("ping %s %d %s", en, r.Intn(2), BytesTok(r.Bytes(8)))
 		case k == 17:
-			g.emit("settingsack %s", en)
+			g.ack(e)
 		case k == 18 && r.Chance(1, 4):
 			g.emit("goaway %s %d %d %s", en, r.Intn(9), r.Intn(14), BytesTok(r.Bytes(r.Intn(6))))
 		case k == 19 && r.Chance(1, 2):
@@ -575,6 +894,11 @@ func Gen(profile string, r *core.Rand, tier string, emit func([]string)) {
 	}
 	for i := 0; i < n/20; i++ {
 		emit(malformedCase(r.Fork()))
+	}
+	if profile == "C08" { // the HPACK table model against x/net's decoder and encoder
+		for i := 0; i < n/3; i++ {
+			emit(hpCase(r.Fork()))
+		}
 	}
 	if profile == "C08" { // end-to-end tier: the preface in small pieces through Config.Proxy
 		pieces := []string{"24", "1,23", "3,21", "23,1", "1,1,1,1,1,1,1,1,1,1,1,1,1,1,1,1,1,1,1,1,1,1,1,1", "7,7,7,3", "12,12"}
